@@ -147,7 +147,18 @@ static int ss_new(int argc, char **argv)
    {
    (void)argc; (void)argv;
    if (!cur_tmpl) { fputs("-1", bvp_out); return 0; }
-   if (!cur_dts) cur_dts = bufr_create_dataset(cur_tmpl);
+   if (!cur_dts)
+      {
+      cur_dts = bufr_create_dataset(cur_tmpl);
+      /* bufr_create_dataset stamps the current time into Section 1: not part of the tie (the model starts from
+       * zeros, scenarios that care set every field with ds.hdr); kept deterministic so that a shrunk scenario
+       * cannot differ by the clock */
+      if (cur_dts)
+         {
+         BUFR_SET_YEAR(cur_dts, 0); BUFR_SET_MONTH(cur_dts, 0); BUFR_SET_DAY(cur_dts, 0);
+         BUFR_SET_HOUR(cur_dts, 0); BUFR_SET_MINUTE(cur_dts, 0); BUFR_SET_SECOND(cur_dts, 0);
+         }
+      }
    fprintf(bvp_out, "%d", bufr_create_datasubset(cur_dts));
    return 0;
    }
